@@ -431,10 +431,11 @@ pub fn run_check(def: &CheckDef, tier: Tier) -> i32 {
 	let mut dead_cases: Vec<(u64, String)> = Vec::new();
 	let mut last_progress: BTreeMap<u64, (u64, u64)> = BTreeMap::new(); // slot -> (file len, time)
 	// a case takes milliseconds to a few seconds (thorough crash-engine cases: up to tens of
-	// seconds on a loaded machine); VERIF_WATCHDOG_S overrides
+	// seconds, minutes on a loaded machine: a first thorough run of C07 next to eight
+	// compiling agents lost cases to a 180 s bound); VERIF_WATCHDOG_S overrides
 	let watchdog_ns: u64 = std::env::var("VERIF_WATCHDOG_S").ok().and_then(|s| s.parse::<u64>().ok()).unwrap_or(match tier {
 		Tier::Quick => 75,
-		Tier::Thorough => 180,
+		Tier::Thorough => 900,
 	}) * 1_000_000_000;
 	loop {
 		let mut running = 0;
@@ -592,7 +593,7 @@ pub fn run_check(def: &CheckDef, tier: Tier) -> i32 {
 	let mut confirmed: Vec<(CaseLine, String)> = Vec::new();
 	for (l, died) in violations.iter().take(if dead_cases.is_empty() { 5 } else { 2 }) {
 		let path = l.replay.clone().unwrap_or_default();
-		// bounded: a replay that hangs is killed (240 s; 100 s when cases already hung)
+		// bounded: a replay that hangs is killed (240 s; watchdog + 25 s when cases already hung)
 		let st = (|| -> std::io::Result<(Option<i32>, String)> {
 			let outp = outdir.join("replay.out");
 			let f = std::fs::File::create(&outp)?;
@@ -602,7 +603,7 @@ pub fn run_check(def: &CheckDef, tier: Tier) -> i32 {
 				if let Some(s) = c.try_wait()? {
 					return Ok((s.code(), std::fs::read_to_string(&outp).unwrap_or_default()));
 				}
-				if real_monotonic_ns() - t1 > if dead_cases.is_empty() { 240_000_000_000 } else { 100_000_000_000 } {
+				if real_monotonic_ns() - t1 > if dead_cases.is_empty() { 240_000_000_000 } else { watchdog_ns + 25_000_000_000 } {
 					let _ = c.kill();
 					let _ = c.wait();
 					return Ok((None, "replay exceeded its time bound (hang)".into()));
